@@ -249,7 +249,7 @@ def run(tier='quick', seed=0, only=None, verbose=False):
         'get_node_template, __getitem__, to_yaml, update_template; OperatorTemplate.update_template; deepcopy (concrete)'],
         bounds=dict(operations=OPS, sequences='single operations (quick) / all ordered pairs (thorough)',
                     templates='flat with shared NodeTemplate/OperatorTemplate objects and per-node overrides; '
-                              'hierarchical depth 1-2'),
+                              'hierarchical depth 1-2; circuits of populations (derive a copy, edit the copy)'),
         stubs=['numpy library model'],
         assumptions=['reals for floats', 'operation sequences are bounded enumeration; the solver decides function '
                      'identity per sequence', 'an operation that raises is reported separately (op-raises)'])
@@ -315,6 +315,18 @@ def run(tier='quick', seed=0, only=None, verbose=False):
             for i in res['inconclusive']:
                 rep.inconcl(dict(key=job['key'], **{k: str(x)[:200] for k, x in i.items()}))
     consume(rep, jobs)
+    # circuits of populations (harness of C16): derive a copy without in_place, edit the copy, compile the BASE
+    from . import c16
+    pj = []
+    for kind in ('matrix', 'scalar'):
+        for i in range(2 if tier == 'quick' else 8):
+            pj.append(dict(key=f"pop:{kind}:{seed}:{i}|population|derive-then-edit-copy", kind=kind, seed=seed * 100 + i,
+                           build='population', vectorize=True, spec=None, derive_then_edit=True))
+    if only:
+        pj = [j for j in pj if only in j['key']]
+    for j in pj:
+        j['spec'] = c16.explicit_spec(c16.make_model(j['kind'], j['seed']))
+    tvjobs.run_tv_jobs(rep, pj, verbose=verbose, fn=c16.job_fn)
     return rep.finish(rule='program = (template, sequence of listed non-mutating operations, vectorize); after the sequence '
                            'the SAME in-memory template is compiled with in_place=False and every state variable\'s '
                            'derivative is proved equal to the reference of the original spec')
